@@ -312,7 +312,7 @@ func c09LoopFresh(r *core.Run) {
 				_ = ph
 				fresh = false
 			}
-			key := "Login: " + core.Expr(ia.X) + "[...] = " + core.Expr(st.Val)
+			key := "Login: " + core.KExpr(ia.X) + "[...] = " + core.KExpr(st.Val)
 			r.Check(fresh, "R09.5", key, st.Pos(), "the stored object is created in the same iteration",
 				"an object created outside the loop is stored into the parameter list in every iteration: all entries alias one object, so every remote server entry carries the last ciphertext (and the account's entry another server's password)")
 		}
